@@ -1051,6 +1051,204 @@ def exhaustive_small(res, stats):
                             res.witnesses.append(witness(spec, spec['inputs'][0], bad, 'formula'))
 
 
+# ------------------------------------------------------------------------------------------------
+# inferred-expect history stream (perturb-then-probe): several graders WITHOUT configured answers that differ in
+# delimiter / ordered / nesting / options / subgrader table are called in varying order with the same expect strings;
+# every call is judged by the formula computed from THAT grader's own configuration, and a sample of the calls is
+# repeated in a fresh interpreter
+# ------------------------------------------------------------------------------------------------
+HIST_DELIMS = [',', ';', '/', '--']
+
+
+def hist_leaves(g, expect):
+    """the leaf expect strings of `expect` under grader g's own delimiters, as nested lists"""
+    parts = my_split(expect, g['cfg']['delimiter'])
+    if g['nested']:
+        return [my_split(p, g['inner_cfg']['delimiter']) for p in parts]
+    return parts
+
+
+def gen_world(rng):
+    names = rng.sample(LEAF_NAMES, 4)
+    expects = []
+    for _ in range(rng.randint(3, 4)):
+        d1, d2 = rng.sample(HIST_DELIMS, 2)
+        parts = [d2.join(rng.choice(names) for _ in range(rng.choice([1, 2, 2, 3]))) for _ in range(rng.choice([2, 2, 3]))]
+        expects.append(d1.join(parts))
+    expects.append(rng.choice(HIST_DELIMS).join(rng.sample(names, 2)))
+    used = sorted({d for e in expects for d in HIST_DELIMS if d in e}) or [',']
+    graders = []
+
+    def opts(d):
+        c = gen_cfg(rng, d)
+        c['length_error'] = rng.random() < 0.25
+        c['wrong_msg'] = ''
+        return c
+    for d in used:
+        for ordered in rng.sample([False, True], rng.choice([1, 2])):
+            graders.append({'nested': False, 'cfg': dict(opts(d), ordered=ordered), 'inner_cfg': None, 'tbl': rng.randrange(2)})
+    pairs = [(a, b) for a in used for b in used if a != b]
+    for do, di in rng.sample(pairs, min(len(pairs), rng.choice([2, 3]))):
+        graders.append({'nested': True, 'cfg': opts(do), 'inner_cfg': opts(di), 'tbl': rng.randrange(2)})
+    other = [d for d in HIST_DELIMS if d not in used]
+    if other:
+        graders.append({'nested': False, 'cfg': opts(other[0]), 'inner_cfg': None, 'tbl': 0})
+    # two subgrader tables over every leaf string any grader can infer from any expect
+    leaves = set()
+    for g in graders:
+        for e in expects:
+            for x in hist_leaves(g, e):
+                leaves.update(x if isinstance(x, list) else [x])
+    fav = {}
+    tables = [{}, {}]
+    for L in sorted(leaves):
+        fav[L] = rng.choice(ITEM_NAMES)
+        tables[0][L.strip() + '|' + fav[L]] = [1, '']
+        tables[1][L.strip() + '|' + fav[L]] = [rng.choice([1, 0.5]), '']
+        for it in rng.sample(ITEM_NAMES, 2):
+            if it != fav[L]:
+                tables[rng.randrange(2)][L.strip() + '|' + it] = [rng.choice([0.5, 0.25]), '']
+    return {'graders': graders, 'expects': expects, 'tables': tables, 'fav': fav}
+
+
+def hist_spec(world, gi, expect):
+    g = world['graders'][gi]
+    return {'nested': g['nested'], 'cfg': g['cfg'], 'inner_cfg': g['inner_cfg'], 'form': 'infer', 'answers_string': expect,
+            'answers': [], 'leaves': {}, 'table': world['tables'][g['tbl']], 'single': False, 'stream': 'exact'}
+
+
+def hist_input(rng, world, gi, expect):
+    g = world['graders'][gi]
+    fav = world['fav']
+    tree = hist_leaves(g, expect)
+
+    def vary(items):
+        items = list(items)
+        r = rng.random()
+        if r < 0.3 and len(items) > 1:
+            rng.shuffle(items)
+        elif r < 0.45:
+            items[rng.randrange(len(items))] = rng.choice(ITEM_NAMES)
+        elif r < 0.55 and len(items) > 1:
+            items.pop(rng.randrange(len(items)))
+        elif r < 0.62:
+            items.append(rng.choice(ITEM_NAMES))
+        elif r < 0.67:
+            items[rng.randrange(len(items))] = rng.choice(['', ' '])
+        return items
+    if g['nested']:
+        outer = [g['inner_cfg']['delimiter'].join(vary([fav[L] for L in inner])) for inner in tree]
+        if rng.random() < 0.3 and len(outer) > 1:
+            rng.shuffle(outer)
+        return g['cfg']['delimiter'].join(outer)
+    return g['cfg']['delimiter'].join(vary([fav[L] for L in tree]))
+
+
+def canon_outcome(st, out):
+    if st == 'ret':
+        return ['ret', repr(out.get('grade_decimal')), repr(out.get('ok')), out.get('msg')]
+    return [st, type(out).__name__, str(out)]
+
+
+def run_history(world, calls, judge_each=True):
+    """calls: [(grader index, expect, input, fresh instance?)]; returns [(outcome, judgement)] in call order"""
+    inst = {}
+    results = []
+    for gi, expect, inp, fresh in calls:
+        if gi < 0:                      # a perturber of another class of the family, called with the same expect
+            from mitxgraders import StringGrader
+            core.guarded(StringGrader() if gi == -1 else table_grader_class()(table=dict(world['tables'][0])), expect, inp)
+            results.append((None, None))
+            continue
+        spec = hist_spec(world, gi, expect)
+        if fresh or gi not in inst:
+            st, built = core.guarded(build, dict(spec, answers_string=''))
+            if st != 'ret':
+                results.append((canon_outcome(st, built), 'the grader cannot be built: %r' % (built,)))
+                continue
+            g = built[0]
+            if not fresh:
+                inst[gi] = g
+        else:
+            g = inst[gi]
+        st, out = core.guarded(g, expect, inp)
+        results.append((canon_outcome(st, out), judge(spec, inp, st, out) if judge_each else None))
+    return results
+
+
+def probe_main():
+    """entry point of the fresh interpreter: stdin = JSON [(world, call)], stdout = JSON outcomes of each single call"""
+    import sys
+    data = json.load(sys.stdin)
+    out = []
+    for world, call in data:
+        out.append(run_history(world, [tuple(call)], judge_each=False)[0][0])
+    json.dump(out, sys.stdout)
+
+
+def fresh_outcomes(probes):
+    import os
+    import subprocess
+    env = dict(os.environ, PYTHONPATH='%s:%s' % (core.REPO, core.VERIF), PYTHONHASHSEED='0')
+    p = subprocess.run([sys_executable(), '-B', '-c', 'from harness.props import c07; c07.probe_main()'],
+                       input=json.dumps(probes), stdout=subprocess.PIPE, stderr=subprocess.PIPE, text=True, env=env, timeout=300)
+    if p.returncode != 0:
+        raise RuntimeError('fresh interpreter failed: ' + p.stderr[-500:])
+    return json.loads(p.stdout)
+
+
+def sys_executable():
+    import sys
+    return sys.executable
+
+
+def history_stream(rng, res, stats, n_worlds, n_calls, n_probes):
+    probes, probe_meta = [], []
+    for _ in range(n_worlds):
+        world = gen_world(rng)
+        calls = []
+        # every expect goes to several different graders in varying order, interleaved with perturbers
+        for _ in range(n_calls):
+            expect = rng.choice(world['expects'])
+            r = rng.random()
+            if r < 0.06:
+                calls.append((-1 if rng.random() < 0.5 else -2, expect, rng.choice(ITEM_NAMES), False))
+                continue
+            gi = rng.randrange(len(world['graders']))
+            calls.append((gi, expect, hist_input(rng, world, gi, expect), rng.random() < 0.2))
+        results = run_history(world, calls)
+        stats['history_calls'] += len(calls)
+        res.oracle_evals += len(calls)
+        for k, ((outcome, bad), call) in enumerate(zip(results, calls)):
+            if bad:
+                res.witnesses.append({'key': 'C07:history:%s' % hashlib.sha256(json.dumps([world, calls[:k + 1]], sort_keys=True).encode()).hexdigest()[:12],
+                                      'kind': 'history', 'world': world, 'calls': [list(c) for c in calls[:k + 1]],
+                                      'spec': hist_spec(world, call[0], call[1]), 'input': call[2],
+                                      'what': ('after %d earlier calls on graders without configured answers (same expect strings, other '
+                                               'delimiters / nesting / options), expect %r: %s' % (k, call[1], bad))})
+                stats['history_witnesses'] += 1
+                break
+        idx = [k for k, c in enumerate(calls) if c[0] >= 0]
+        for k in rng.sample(idx, min(n_probes, len(idx))):
+            probes.append((world, list(calls[k])))
+            probe_meta.append((world, calls, k, results[k][0]))
+    if not probes:
+        return
+    try:
+        fresh = fresh_outcomes(probes)
+    except Exception as e:      # noqa
+        res.corr_errors.append(('c07-fresh-interpreter', str(e)))
+        return
+    stats['history_fresh_probes'] += len(fresh)
+    for (world, calls, k, seen), want in zip(probe_meta, fresh):
+        if seen != want:
+            res.witnesses.append({'key': 'C07:history-fresh:%s' % hashlib.sha256(json.dumps([world, calls[:k + 1]], sort_keys=True).encode()).hexdigest()[:12],
+                                  'kind': 'history-fresh', 'world': world, 'calls': [list(c) for c in calls[:k + 1]],
+                                  'spec': hist_spec(world, calls[k][0], calls[k][1]), 'input': calls[k][2], 'fresh': want,
+                                  'what': ('call %r with expect %r returned %r after %d earlier calls, but %r in a fresh interpreter'
+                                           % (calls[k][2], calls[k][1], seen, k, want))})
+
+
 def split_terms(rng, n):
     out = []
     alphabet = 'ab-, x'
@@ -1115,6 +1313,7 @@ def run(ctx):
         run_spec(spec, rng, res, stats, terms, perm_budget if not is_corpus else 23)
     if thorough:
         exhaustive_small(res, stats)
+    history_stream(rng, res, stats, n_worlds=4 if not thorough else 60, n_calls=45, n_probes=8)
     # identical terms (the same inner check on the same item, repeated across alternatives) are evaluated once
     seen, uniq = set(), []
     for t, sp, inp in terms:
@@ -1168,6 +1367,16 @@ def evaluate(case_terms):
 
 # ------------------------------------------------------------------------------------------------
 def replay(w):
+    if w.get('kind') in ('history', 'history-fresh'):
+        calls = [tuple(c) for c in w['calls']]
+        results = run_history(w['world'], calls)
+        outcome, bad = results[-1]
+        desc = ('%d calls on %d graders without configured answers; last: expect %r, input %r -> %r'
+                % (len(calls), len(w['world']['graders']), calls[-1][1], calls[-1][2], outcome))
+        if w['kind'] == 'history':
+            return bad is not None, desc + ': ' + (bad or 'satisfies the property')
+        want = fresh_outcomes([(w['world'], list(calls[-1]))])[0]
+        return outcome != want, desc + '; fresh interpreter: %r' % (want,)
     spec, inp = w.get('spec'), w.get('input')
     if spec is None:
         return False, 'witness carries no case'
